@@ -304,3 +304,21 @@ def multicast_checks(ctx, net, mine, rng, ci):
                               % (n, lvl, len(got), lv, len(want), target), case)
                 continue
             ctx.nontrivial((ci, "mc", net_ref.level(n), lvl))
+
+
+def run_case(ctx, case):
+    """replay of one observation: {cfg, n, d, role} (or a table / multicast case)"""
+    sets = bytesets(ctx.seed, 6)
+    configs = [(p, s, mc) for (p, s) in sets for mc in (True, False)]
+    prefix, suffix, mc = configs[case.get("cfg", 0) % len(configs)]
+    net = Network781(prefix, suffix, mc)
+    try:
+        if "n" not in case:
+            table_checks(ctx, net, prefix, suffix, mc, case.get("cfg", 0))
+        elif "level" in case:
+            multicast_checks(ctx, net, [case["n"]], ctx.sub_rng("replay"), case.get("cfg", 0))
+        else:
+            rng = ctx.sub_rng("replay")
+            hop_checks(ctx, net, [case["n"]], True, 0, rng, case.get("cfg", 0), mc)
+    finally:
+        net.close()
